@@ -384,18 +384,20 @@ func (g *vgen) names(p string, toks []vtok, out []string) []string {
 // ---- the callers' readings of Limits --------------------------------------
 
 type vcaller struct {
-	name string
-	desc bool
-	in   func(l0, l1, s string) bool
+	name  string
+	desc  bool
+	in    func(l0, l1, s string) bool
+	lower func(l0, l1, s string) bool // the lower-bound half of in
+	upper int                         // index of the upper bound in Limits
 }
 
 var vcallers = []vcaller{
-	{"scan-asc", false, func(l0, l1, s string) bool { return l0 <= s && s < l1 }},
-	{"scan-desc", true, func(l0, l1, s string) bool { return l1 < s && s <= l0 }},
-	{"keys", false, func(l0, l1, s string) bool { return l0 <= s && s <= l1 }},
-	{"hooks", false, func(l0, l1, s string) bool { return l0 <= s && (l1 == "" || s <= l1) }},
-	{"search-asc", false, func(l0, l1, s string) bool { return l0 <= s && s < l1 }},
-	{"search-desc", true, func(l0, l1, s string) bool { return l1 <= s && s < l0 }},
+	{"scan-asc", false, func(l0, l1, s string) bool { return l0 <= s && s < l1 }, func(l0, l1, s string) bool { return l0 <= s }, 1},
+	{"scan-desc", true, func(l0, l1, s string) bool { return l1 < s && s <= l0 }, func(l0, l1, s string) bool { return l1 < s }, 0},
+	{"keys", false, func(l0, l1, s string) bool { return l0 <= s && s <= l1 }, func(l0, l1, s string) bool { return l0 <= s }, 1},
+	{"hooks", false, func(l0, l1, s string) bool { return l0 <= s && (l1 == "" || s <= l1) }, func(l0, l1, s string) bool { return l0 <= s }, 1},
+	{"search-asc", false, func(l0, l1, s string) bool { return l0 <= s && s < l1 }, func(l0, l1, s string) bool { return l0 <= s }, 1},
+	{"search-desc", true, func(l0, l1, s string) bool { return l1 <= s && s < l0 }, func(l0, l1, s string) bool { return l1 <= s }, 0},
 }
 
 func venvInt(name string, def int64) int64 {
@@ -456,11 +458,11 @@ func TestVerifGlob(t *testing.T) {
 					want := vmatch(toks, s)
 					got, err := Match(p, s)
 					if err != nil {
-						fail("match-error", class, p, s, nil)
+						fail("match-error", "other", p, s, nil)
 						continue
 					}
 					if got != want {
-						fail("match", class, p, s, []string{fmt.Sprint(got), fmt.Sprint(want)})
+						fail("match", "other", p, s, []string{fmt.Sprint(got), fmt.Sprint(want)})
 						continue
 					}
 					if !got {
@@ -476,7 +478,7 @@ func TestVerifGlob(t *testing.T) {
 							gl = desc
 						}
 						if len(gl.Limits) != 2 {
-							fail(c.name, class, p, s, gl.Limits)
+							fail(c.name, "other", p, s, gl.Limits)
 							continue
 						}
 						if gl.Limits[0] == "" && gl.Limits[1] == "" {
@@ -484,7 +486,13 @@ func TestVerifGlob(t *testing.T) {
 						}
 						ll++
 						if !c.in(gl.Limits[0], gl.Limits[1], s) {
-							fail(c.name, class, p, s, gl.Limits)
+							// the known class: the literal prefix ends in 0xFF, the
+							// upper bound is prefix+0x00 and only that bound excludes s
+							cl := "other"
+							if class == "ends-ff" && gl.Limits[c.upper] == raw+"\x00" && c.lower(gl.Limits[0], gl.Limits[1], s) {
+								cl = "ends-ff"
+							}
+							fail(c.name, cl, p, s, gl.Limits)
 						}
 					}
 				}
